@@ -154,6 +154,7 @@ func (h *FBDNSDB) ServeDNSWithRCODE(ctx context.Context, w dns.ResponseWriter, r
 		cacheKey string
 	)
 	h.stats.IncrementCounter("DNS_queries")
+	verifYield("serve.start")
 
 	reader, err := h.AcquireReader()
 	if err != nil {
@@ -165,6 +166,7 @@ func (h *FBDNSDB) ServeDNSWithRCODE(ctx context.Context, w dns.ResponseWriter, r
 		return dns.RcodeServerFailure, nil
 	}
 	defer reader.Close()
+	verifYield("serve.acquired")
 	// State carries important information about the current request.
 	// It is also used to write the reply.
 	state := request.Request{W: w, Req: r}
@@ -206,6 +208,7 @@ func (h *FBDNSDB) ServeDNSWithRCODE(ctx context.Context, w dns.ResponseWriter, r
 		return dns.RcodeServerFailure, nil
 	}
 
+	verifYield("serve.located")
 	if loc.Mask > 0 {
 		h.stats.IncrementCounter("DNS_location.ecs")
 	} else if loc.LocID[0] == 0 && loc.LocID[1] == 0 {
@@ -261,6 +264,7 @@ func (h *FBDNSDB) ServeDNSWithRCODE(ctx context.Context, w dns.ResponseWriter, r
 	// its name servers. The domain returned is the one for which we found
 	// matching SOA or NS
 	ns, auth, zoneCut, err := reader.IsAuthoritative(packedQName, loc)
+	verifYield("serve.zonecut")
 
 	if err != nil {
 		h.stats.IncrementCounter("DNS_error.is_authoritative")
@@ -313,6 +317,7 @@ func (h *FBDNSDB) ServeDNSWithRCODE(ctx context.Context, w dns.ResponseWriter, r
 		}
 	}
 
+	verifYield("serve.answered")
 	unpackedControlDomain, _, err := dns.UnpackDomainName(zoneCut, 0)
 	if err != nil {
 		glog.Errorf("Failed to unpack control domain name %s", err)
@@ -342,6 +347,7 @@ func (h *FBDNSDB) ServeDNSWithRCODE(ctx context.Context, w dns.ResponseWriter, r
 	weighted = db.AdditionalSectionForRecords(reader, a, loc, state.QClass(), a.Answer) || weighted
 	weighted = db.AdditionalSectionForRecords(reader, a, loc, state.QClass(), a.Ns) || weighted
 
+	verifYield("serve.before-cache-insert")
 	if h.cacheConfig.Enabled {
 		// Cache answer before we add ECS/options
 		var timeout int64
@@ -367,6 +373,7 @@ func (h *FBDNSDB) ServeDNSWithRCODE(ctx context.Context, w dns.ResponseWriter, r
 		a.Extra = append([]dns.RR{o}, a.Extra...)
 	}
 
+	verifYield("serve.before-write")
 	return h.writeAndLog(state, a, ecs)
 }
 
